@@ -96,6 +96,8 @@ APIS = {
     'history_per_leaf_parameter': lambda c: printing.history_per_leaf_parameter(c),
     'graphviz.render': lambda c: fgraphviz.render(c),
     'graphviz.render_diff': lambda c: fgraphviz.render_diff(old=c, new=_other(c)),
+    'graphviz.render_diff_trim': lambda c: fgraphviz.render_diff(old=c, new=_other(c), trim=True),
+    'graphviz.render_diff_trim_new': lambda c: fgraphviz.render_diff(old=_other(c), new=c, trim=True),
     'dump_json': lambda c: serialization.dump_json(c),
     'dump_yaml': lambda c: yaml_serialization.dump_yaml(c),
     'build_diff_old': lambda c: diffing.build_diff(c, _other(c)),
@@ -157,7 +159,7 @@ PREP = {name: _clear_tags_on_unset for name in APIS if 'codegen' in name}
 def strategy_(draw, tier):
   recipe = draw(dags.dag(
       max_nodes=9, min_nodes=3, tags=True, bts=('Config', 'Config', 'Partial'),
-      kinds=['B', 'B', 'B', 'list', 'tuple', 'dict', 'Bpos', 'TV', 'Bempty', 'ltuple'],
+      kinds=['B', 'B', 'B', 'list', 'tuple', 'dict', 'Bpos', 'TV', 'Bempty', 'ltuple', 'odict'],
       fns=['things:f2', 'things:h1', 'things:Base', 'things:mutdef', 'things:mutating'],
       root_kinds=['B'], p_alias=0.8, allow_copyof=False))
   # a long value somewhere
